@@ -597,7 +597,9 @@ impl World {
             let conf = RefShape(&leaders[0].obs.conf).quorum(majority);
             let all_follow = majority.iter().all(|n| {
                 let x = &self.nodes[n];
-                x.running() && x.obs.term == t && (x.id == l || x.obs.leader_id == l) && x.cfg.pre_vote && x.cfg.check_quorum
+                // (a follower of that term that has just restarted does not know its leader yet: the heartbeats of the
+                // grace period tell it)
+                x.running() && x.obs.term == t && (x.id == l || (x.obs.role == StateRole::Follower && (x.obs.leader_id == l || x.obs.leader_id == 0))) && x.cfg.pre_vote && x.cfg.check_quorum
             });
             let max_term = self.nodes.values().filter(|x| x.started).map(|x| x.obs.term.max(x.disk.durable.hs.term)).max().unwrap_or(0);
             let stale_msgs = self.flights.values().any(|f| f.msg.term > t);
